@@ -3,6 +3,9 @@ package flatfile
 import (
 	"io"
 
+	"github.com/antchfx/xpath"
+	"github.com/jf-tech/go-corelib/caches"
+
 	"github.com/jf-tech/omniparser/idr"
 	zz "github.com/jf-tech/omniparser/zzverif"
 )
@@ -302,4 +305,66 @@ func C05Hier() {
 		_ = root
 	}
 	zz.Fail("no terminal result within L+2 reads")
+}
+
+// C17Hier: the shared flat-file HierarchyReader does not retain records: a periodic input of N
+// blocks "a b", the target being a leaf record, a record with a child record, or a group, with
+// a target xpath that lets every block, only some, or none pass. After each delivered and
+// released record the tree under the reader's root is no larger than after the first.
+func C17Hier() {
+	N := zz.Param("N", 3)
+	var top []RecDecl
+	b := &zzDecl{name: "b", min: 1, max: 1}
+	switch zz.NondetChoice("targetKind", 3) {
+	case 0: // leaf target a, then b
+		top = []RecDecl{&zzDecl{name: "G", group: true, min: 0, max: zzUnbounded, kids: []RecDecl{
+			&zzDecl{name: "a", min: 1, max: 1, target: true}, b}}}
+	case 1: // target record with a child record
+		top = []RecDecl{&zzDecl{name: "a", min: 0, max: zzUnbounded, target: true, kids: []RecDecl{b}}}
+	default: // target group
+		top = []RecDecl{&zzDecl{name: "G", group: true, target: true, min: 0, max: zzUnbounded, kids: []RecDecl{
+			&zzDecl{name: "a", min: 1, max: 1}, b}}}
+	}
+	var units []byte
+	for i := 0; i < N; i++ {
+		units = append(units, 'a', 'b')
+	}
+	// node texts are the unit positions: a = 0,2,4,…  b = 1,3,5,…
+	var filter *xpath.Expr
+	switch zz.NondetChoice("filter", 4) {
+	case 1:
+		filter, _ = caches.GetXPathExpr(".[.//text()='0' or .//text()='1' or .//text()='4' or .//text()='5']") // blocks 1 and 3
+	case 2:
+		filter, _ = caches.GetXPathExpr(".[.//text()='2' or .//text()='3']") // block 2 only
+	case 3:
+		filter, _ = caches.GetXPathExpr(".[.//text()='4' or .//text()='5']") // last block only
+	}
+	rr := &zzRecReader{units: units, consumed: make([]int, len(units)), failAt: -1}
+	r := NewHierarchyReader(top, rr, filter)
+	root := r.stack[0].recNode
+	first := -1
+	for i := 0; i < N+1; i++ {
+		n, err := r.Read()
+		if err != nil {
+			zz.Cover("terminal")
+			zz.Assert(err == io.EOF, "the periodic input ends with EOF")
+			return
+		}
+		zz.Cover("record")
+		r.Release(n)
+		size := zzTreeSize(root)
+		if first < 0 {
+			first = size
+		}
+		zz.Assert(size <= first, "retained tree does not grow with the number of records read")
+	}
+	zz.Fail("no terminal result within the read bound")
+}
+
+func zzTreeSize(n *idr.Node) int {
+	k := 1
+	for c := n.FirstChild; c != nil; c = c.NextSibling {
+		k += zzTreeSize(c)
+	}
+	return k
 }
